@@ -31,6 +31,7 @@ GROW = b"1if 1else 1"
 KINDS = [
     ('shrink.py', SHRINK), ('grow.py', GROW), ('empty.py', b''), ('win.pyw', SHRINK), ('syntaxerr.py', b'def (:\n'), ('undecodable.py', b'\xff\xfe\x00bad = 1\n'),
     ('unreadable.py', SHRINK), ('readonly.py', SHRINK), ('notes.txt', SHRINK), ('backup.py.bak', SHRINK), ('nosuffix', SHRINK),
+    ('stub.pyi', SHRINK), ('cython.pyx', SHRINK), ('UPPER.PY', SHRINK), ('py', SHRINK),
     ('subdir', 'DIR'), ('link.py', 'LINK-FILE'), ('linkdir', 'LINK-DIR'), ('loop', 'LINK-LOOP'),
 ]
 OUTSIDE = 'outside'      # sibling directory holding link targets; never passed as an argument
